@@ -20,6 +20,7 @@ pub mod c02;
 pub mod c03;
 pub mod c03e;
 pub mod c05;
+pub mod c06;
 pub mod c07;
 pub mod c08;
 pub mod c09;
@@ -37,7 +38,7 @@ pub mod c20;
 
 /// Dispatch a native replay by harness name.
 pub fn replay(name: &str, s: &mut src::ReplaySrc) -> bool {
-    c00::replay(name, s) || c01::replay(name, s) || c02::replay(name, s) || c03::replay(name, s) || c03e::replay(name, s) || c05::replay(name, s) || c07::replay(name, s) || c18::replay(name, s) || c19::replay(name, s) || c20::replay(name, s) || c08::replay(name, s) || c09::replay(name, s) || c10::replay(name, s) || c15::replay(name, s) || c16::replay(name, s) || c11::replay(name, s) || c12::replay(name, s) || c13::replay(name, s) || c14::replay(name, s) || c17::replay(name, s)
+    c00::replay(name, s) || c01::replay(name, s) || c02::replay(name, s) || c03::replay(name, s) || c03e::replay(name, s) || c05::replay(name, s) || c06::replay(name, s) || c07::replay(name, s) || c18::replay(name, s) || c19::replay(name, s) || c20::replay(name, s) || c08::replay(name, s) || c09::replay(name, s) || c10::replay(name, s) || c15::replay(name, s) || c16::replay(name, s) || c11::replay(name, s) || c12::replay(name, s) || c13::replay(name, s) || c14::replay(name, s) || c17::replay(name, s)
 }
 
 pub fn all_names() -> Vec<&'static str> {
@@ -47,6 +48,7 @@ pub fn all_names() -> Vec<&'static str> {
     v.extend_from_slice(c03::NAMES);
     v.extend_from_slice(c03e::NAMES);
     v.extend_from_slice(c05::NAMES);
+    v.extend_from_slice(c06::NAMES);
     v.extend_from_slice(c07::NAMES);
     v.extend_from_slice(c18::NAMES);
     v.extend_from_slice(c19::NAMES);
